@@ -182,7 +182,7 @@ def run(ctx):
         filter_table(ctx, pt, edit, filt, stores_for_c072)
 
     # --- C07.4 command line
-    cli_table(ctx)
+    cli_table(ctx, edit, filt, stores_for_c072)
 
     # --- C07.5 the dumped object is the decoded one
     from .c06 import find_dump_sites
@@ -251,10 +251,8 @@ def filter_table(ctx, pt, edit, filt, stores):
         # (is None, is empty, in meta, in info) -> set of effects
     }
     rows = 0
-    for is_none in (True, False):
-        for is_empty in (True, False):
-            if is_none and is_empty:
-                continue
+    for is_none, is_empty, rep in ((True, False, None), (False, True, ""), (False, False, "x"), (False, False, ["x"])):
+        if True:
             for in_meta in (True, False):
                 for in_info in (True, False):
                     want = set()
@@ -285,10 +283,17 @@ def filter_table(ctx, pt, edit, filt, stores):
                                     return None
                                 return val if isinstance(op, ast.In) else (not val)
                         if isinstance(x, ast.Name) and x.id == vv:
-                            return None if not (is_none or is_empty) else False
+                            return bool(rep)
+                        # anything else about the value: fold it with the representative of this row
+                        if not any(isinstance(n_, ast.Name) and n_.id not in (vv, "isinstance", "len", "any", "all", "bool", "str", "list", "tuple", "dict", "int", "bytes", "set", "float")
+                                   for n_ in ast.walk(x)):
+                            try:
+                                return bool(const_fold(x, {vv: rep}))
+                            except _Unknown:
+                                return None
                         return None
                     rows += 1
-                    label = "value %s, key %sin top level, %sin info" % ("None" if is_none else ("''" if is_empty else "given"),
+                    label = "value %s, key %sin top level, %sin info" % ("None" if is_none else ("''" if is_empty else "given (%r)" % (rep,)),
                                                                           "" if in_meta else "not ", "" if in_info else "not ")
                     try:
                         visited, term = C.trace(fg, body_start, atom, stop=[head])
@@ -327,7 +332,172 @@ def filter_table(ctx, pt, edit, filt, stores):
     ctx.floor("filter decision-table rows", 12, rows)
 
 
-def cli_table(ctx):
+class _Unknown(Exception):
+    pass
+
+
+_TYPES = {"str": str, "list": list, "tuple": tuple, "dict": dict, "int": int, "bool": bool, "bytes": bytes, "set": set, "float": float}
+
+
+def const_fold(e, env):
+    """Value of a side-effect free expression over literals and the names in env (constant folding, nothing is executed)."""
+    if isinstance(e, ast.Constant):
+        return e.value
+    if isinstance(e, ast.Name):
+        if e.id in env:
+            return env[e.id]
+        raise _Unknown(e.id)
+    if isinstance(e, (ast.Tuple, ast.List)):
+        vals = [const_fold(x, env) for x in e.elts]
+        return tuple(vals) if isinstance(e, ast.Tuple) else vals
+    if isinstance(e, ast.UnaryOp) and isinstance(e.op, ast.Not):
+        return not const_fold(e.operand, env)
+    if isinstance(e, ast.BoolOp):
+        res = None
+        for v in e.values:
+            res = const_fold(v, env)
+            if isinstance(e.op, ast.And) and not res:
+                return res
+            if isinstance(e.op, ast.Or) and res:
+                return res
+        return res
+    if isinstance(e, ast.Compare) and len(e.ops) == 1:
+        l, r = const_fold(e.left, env), const_fold(e.comparators[0], env)
+        op = e.ops[0]
+        try:
+            if isinstance(op, ast.Is):
+                return l is r
+            if isinstance(op, ast.IsNot):
+                return l is not r
+            if isinstance(op, ast.Eq):
+                return l == r
+            if isinstance(op, ast.NotEq):
+                return l != r
+            if isinstance(op, ast.In):
+                return l in r
+            if isinstance(op, ast.NotIn):
+                return l not in r
+        except TypeError:
+            raise _Unknown("comparison")
+    if isinstance(e, ast.Call) and isinstance(e.func, ast.Name) and not e.keywords:
+        if e.func.id == "isinstance" and len(e.args) == 2:
+            v = const_fold(e.args[0], env)
+            ts = e.args[1].elts if isinstance(e.args[1], ast.Tuple) else [e.args[1]]
+            types = []
+            for t in ts:
+                if isinstance(t, ast.Name) and t.id in _TYPES:
+                    types.append(_TYPES[t.id])
+                else:
+                    raise _Unknown("type")
+            return isinstance(v, tuple(types))
+        if e.func.id == "len" and len(e.args) == 1:
+            return len(const_fold(e.args[0], env))
+        if e.func.id in ("bool",) and len(e.args) == 1:
+            return bool(const_fold(e.args[0], env))
+        if e.func.id in ("any", "all") and len(e.args) == 1:
+            v = const_fold(e.args[0], env)
+            if isinstance(v, (list, tuple, str)):
+                return any(v) if e.func.id == "any" else all(v)
+            raise _Unknown("iterable")
+    raise _Unknown(ast.dump(e)[:40])
+
+
+def absent_value_effect(ctx, edit, filt, stores, field, value):
+    """What the editor does when the request carries `value` for `field` (the value an option has when it is NOT given):
+    'untouched' | 'writes: <stmt>' | None (not decided).  The filter's tests and the tests guarding each store of the
+    field are folded with the literal value."""
+    if filt is None:
+        return None
+    loops = [n for n in filt.node.body if isinstance(n, ast.For)]
+    if len(loops) != 1 or not (isinstance(loops[0].target, ast.Tuple) and len(loops[0].target.elts) == 2):
+        return None
+    kv, vv = (x.id for x in loops[0].target.elts)
+    fg = C.cfg_of(filt)
+    head = fg.of[loops[0]]
+    start = C.succ_by_label(head, "iter")[0]
+
+    env = {vv: value, kv: field}
+    opaque = []
+
+    def atom(x):
+        # the interesting metafile is one that has the field: assume `key in <metafile dictionary>` (else nothing could be lost)
+        if isinstance(x, ast.Compare) and len(x.ops) == 1 and isinstance(x.ops[0], (ast.In, ast.NotIn)) and isinstance(x.left, ast.Name) and x.left.id == kv \
+                and isinstance(x.comparators[0], ast.Name) and x.comparators[0].id in filt.params[1:]:
+            return isinstance(x.ops[0], ast.In)
+        try:
+            return bool(const_fold(x, env))
+        except _Unknown:
+            return None
+
+    def visit(n):
+        a = n.ast
+        if n.kind == "stmt" and isinstance(a, ast.Assign) and len(a.targets) == 1 and isinstance(a.targets[0], ast.Name):
+            try:
+                env[a.targets[0].id] = const_fold(a.value, env)      # a local rewrite of the value: later tests see it
+            except _Unknown:
+                env.pop(a.targets[0].id, None)
+                opaque.append(norm(a))
+    try:
+        visited, term = C.trace(fg, start, atom, stop=[head], visit=visit)
+    except C.Undetermined:
+        return None
+    for n in visited:
+        a = n.ast
+        if n.kind == "stmt" and isinstance(a, ast.Assign) and len(a.targets) == 1 and isinstance(a.targets[0], ast.Name):
+            continue
+        if n.kind == "stmt" and isinstance(a, (ast.Delete, ast.Assign, ast.AugAssign)):
+            txt = norm(a)
+            if isinstance(a, ast.Delete) and all(isinstance(t, ast.Subscript) and isinstance(t.value, ast.Name) and t.value.id == filt.params[0] for t in a.targets):
+                return "untouched"          # dropped from the request
+            return "writes: " + txt
+        if n.kind == "stmt" and isinstance(a, ast.Expr) and isinstance(a.value, ast.Call) and isinstance(a.value.func, ast.Attribute) and a.value.func.attr in ("pop", "clear", "update"):
+            return "writes: " + norm(a)
+    # the entry stays in the request: does any store of this field execute?
+    g = C.cfg_of(edit)
+    from tfsa.reach import ReachDefs
+    rdefs = ReachDefs(edit, g)
+    req = [p for p in edit.params][-1]
+    for ins, ck in stores:
+        if FIELD_OF_KEY.get(ck) != field:
+            continue
+        node = C.stmt_node(ctx, edit, ins.node)
+        verdict = True
+        for b, lab in g.control_deps(node):
+            t = C.test_expr(b)
+            if t is None:
+                continue
+            env = {}
+            for nm in {x.id for x in ast.walk(t) if isinstance(x, ast.Name)}:
+                defs = rdefs.reaching(nm, b)
+                vals = [d.value for d in defs if d.kind == "assign" and d.value is not None] if defs and all(d.kind == "assign" for d in defs) else []
+                reads = [v for v in vals if (isinstance(v, ast.Call) and isinstance(v.func, ast.Attribute) and v.func.attr == "get" and v.args and const_str(v.args[0]) == field)
+                         or (isinstance(v, ast.Subscript) and const_str(v.slice) == field)]
+                if vals and len(reads) == len(vals):
+                    env[nm] = value
+
+            def atom2(x, env=env):
+                if isinstance(x, ast.Compare) and len(x.ops) == 1 and isinstance(x.ops[0], (ast.In, ast.NotIn)) and const_str(x.left) == field and isinstance(x.comparators[0], ast.Name) \
+                        and x.comparators[0].id == req:
+                    return isinstance(x.ops[0], ast.In)
+                try:
+                    return bool(const_fold(x, env))
+                except _Unknown:
+                    return None
+            taken = C.branch_when(b, atom2)
+            if taken is None:
+                verdict = None
+                break
+            if taken != lab:
+                verdict = False
+                break
+        if verdict is None:
+            return None
+        if verdict:
+            return "writes: " + norm(ins.node)
+    return "untouched"
+
+
+def cli_table(ctx, edit=None, filt=None, stores=()):
     cmd = ctx.prog.func("torrentfile.commands:edit")
     parsers = Parsers(ctx)
     p = parsers.by_command("edit")
@@ -367,8 +537,14 @@ def cli_table(ctx):
         elif absent is MISSING:
             ctx.undecided("C07.4", cmd, "absent value of %s not determinable" % want_opt, row.call)
         else:
-            ctx.violated("C07.4", cmd, "option %s (action %s) yields %r when it is NOT given; only None means 'untouched', so every command-line edit writes field %r (and changes the info-hash when it is an info field)" % (
-                want_opt, row.action, absent, field), row.call)
+            eff = absent_value_effect(ctx, edit, filt, stores, field, absent) if edit is not None else None
+            if eff == "untouched":
+                ctx.holds("C07.4", cmd, "option %s (dest %s): absent -> %r, which the editor ignores (folded through the request filter and the guards of every store of %r)" % (want_opt, row.dest, absent, field), row.call)
+            elif eff is None:
+                ctx.undecided("C07.4", cmd, "option %s yields %r when it is NOT given; what the editor does with that value could not be folded" % (want_opt, absent), row.call)
+            else:
+                ctx.violated("C07.4", cmd, "option %s (action %s) yields %r when it is NOT given, and the editor acts on that value (%s): every command-line edit changes field %r although it was not named (and the info-hash when it is an info field)" % (
+                    want_opt, row.action, absent, eff[:80], field), row.call)
     ctx.floor("edit request entries", 6, n)
     namespace_integrity(ctx, parsers, {r.dest for r in p["rows"]})
 
@@ -504,7 +680,7 @@ CLAIM = {
     "text": "Decided for all metafiles and all edit histories through the library function and the command line: the write set of the editor on the decoded structure is enumerated by "
             "points-to analysis and is confined to the named editable keys (each store guarded by its own request entry and fed only by it); the None/''/value semantics of the "
             "request filter is tabulated over its atomic predicates; the CLI options all yield None when absent. Sequences of edits follow by induction because every unnamed key is "
-            "provably outside the write set of a single edit. The deprecated interactive editor feeds the same function and is not separately claimed.",
+            "provably outside the write set of a single edit. The deprecated interactive editor feeds the same function and is not separately claimed. C07.4 folds the value an option has when it is NOT given through the request filter and the guards of every store (constant folding over literals); C07.6: nothing between parse_args and the dispatch rewrites the namespace attributes of the edit options.",
     "note": "Trusted: pyben round trip on untouched parts (shared with C06), argparse semantics. The fate of announce-list when the tracker is cleared is not judged (as the property says).",
     "technique": "write-set analysis by field-sensitive points-to, control dependence (named guard), decision table of the filter over atomic predicates, extracted argparse table",
     "design_ref": "DESIGN.md section 4, C07; appendix D.4",
